@@ -32,3 +32,6 @@ func verifNativeLock()
 func verifNativeUnlock()
 func verifBytesEqual(a, b []byte) bool
 func verifFlockHeld(path string) bool
+func verifOr(a, b bool) bool
+func verifAnd(a, b bool) bool
+func verifPoll()
